@@ -181,6 +181,12 @@ def build_spec(spec, sp):
         build_namespace(spec, 'output', sp['outputs'])
     else:
         spec.outputs.dynamic = True
+    for path, opts in sp.get('redeclare', ()):
+        # an output namespace declared a second time (a subclass' define tightening what its base class declared)
+        kwargs = {'required': opts['required'], 'dynamic': opts['dynamic'], 'validator': VALIDATORS[opts['validator']], 'populate_defaults': opts['populate_defaults']}
+        if opts['valid_type'] is not None:
+            kwargs['valid_type'] = TYPES[opts['valid_type']]
+        spec.output_namespace(spec.namespace_separator.join(path), **kwargs)
     for path, attr, value in sp.get('adjust', ()):
         # a spec adjusted after the declaration, through the public setters of the port (a subclass' define does this)
         target = spec.inputs
@@ -194,6 +200,18 @@ def build_spec(spec, sp):
             target.validator = VALIDATORS[value]
         else:
             raise ValueError(attr)
+
+
+def redeclared(tree, redeclare):
+    """The tree after port-less namespaces were declared again with other options (the last declaration counts)."""
+    tree = copy.deepcopy(tree)
+    for path, opts in redeclare or ():
+        target = tree
+        for name in path[:-1]:
+            target = target['ports'][name]
+        assert not target['ports'][path[-1]]['ports']
+        target['ports'][path[-1]] = ns({}, **opts)
+    return tree
 
 
 def adjusted(tree, adjust):
